@@ -53,7 +53,8 @@ def undefined_anyway(name, case, i, n):
         if case.get("min_obs") is not None:
             need = case["min_obs"]
         elif case.get("min_period") is not None and n >= 2:
-            need = int(case["min_period"] / statistics.median(b - a for a, b in zip(t, t[1:])))
+            from fractions import Fraction
+            need = int(Fraction(case["min_period"]) / statistics.median(Fraction(b) - Fraction(a) for a, b in zip(t, t[1:])))
         cnt = sum(1 for j in range(i + 1) if t[i] - P < t[j] <= t[i] and not model.miss(x[j]))
         return cnt < max(need, floor)
     return False
